@@ -62,7 +62,9 @@ def run(ctx: Ctx) -> dict:
             unplaceable += 1
             continue
         placed = c12.place_key(row, gen.bban_for(row, rng), code)
-        if placed is None:
+        if placed is None or not all(c in gen.ALNUM for c in placed):
+            # a key that does not fit the lookup fields, or holds a character no BBAN can hold: no IBAN can
+            # carry it (DataCheck reports such an entry; nothing to build here)
             unplaceable += 1
             continue
         iban = cc + gen.check_digits(cc, placed) + placed
